@@ -584,7 +584,8 @@ pub fn gen_val(rng: &mut Rng, c: &ColDef, k: i64, img: i64) -> Val {
             let n = rng.usize(4);
             Val::L((0..n).map(|_| Val::S(WORDS[rng.usize(6)].to_string())).collect())
         }
-        Ty::Vec(d) => Val::L((0..d).map(|_| Val::f((rng.range(-8, 8) as f64) * 0.25)).collect()),
+        // never the zero vector (cosine distance is undefined there and excluded by the property)
+        Ty::Vec(d) => Val::L((0..d).map(|_| Val::f((rng.range(-8, 8) as f64) * 0.25 + 0.125)).collect()),
     }
 }
 
